@@ -248,6 +248,43 @@ Fixpoint download (s : state) (ms : list req) : state * list bool * dl_status :=
       end
   end.
 
+(* parallel mode: ThreadPool.imap(_worker, misses, chunksize=5) - every chunk of five misses is
+   processed sequentially by one thread and stops at its first raise; the other chunks run
+   regardless and (after the `finally: pool.close(); pool.join()`) are awaited before an
+   exception is passed on.  The order in which chunks interleave is thread timing; the model
+   runs them one after the other (the harness makes time stamps logical in request order). *)
+Definition CHUNK : nat := 5.
+
+Fixpoint chunks_of (fuel : nat) (l : list req) : list (list req) :=
+  match fuel with
+  | O => []
+  | S fuel' => match l with
+               | [] => []
+               | _ => firstn CHUNK l :: chunks_of fuel' (skipn CHUNK l)
+               end
+  end.
+
+Definition merge_status (a b : dl_status) : dl_status :=
+  match a, b with
+  | DlCrashed, _ | _, DlCrashed => DlCrashed
+  | DlRaised, _ | _, DlRaised => DlRaised
+  | DlOk, DlOk => DlOk
+  end.
+
+Fixpoint download_chunks (s : state) (cs : list (list req)) : state * list bool * dl_status :=
+  match cs with
+  | [] => (s, [], DlOk)
+  | c :: cs' =>
+      let '(s1, bs1, st1) := download s c in
+      let '(s2, bs2, st2) := download_chunks s1 cs' in
+      (s2, bs1 ++ bs2, merge_status st1 st2)
+  end.
+
+(* _download_from_resources: parallel only when requested and more than one miss *)
+Definition download_all (s : state) (ms : list req) : state * list bool * dl_status :=
+  if par s && Nat.ltb 1 (length ms) then download_chunks s (chunks_of (length ms) ms)
+  else download s ms.
+
 Fixpoint remove_first (n : name) (l : list name) : list name :=
   match l with
   | [] => []
@@ -280,7 +317,7 @@ Definition get (s : state) (l : list req) : state * result :=
   match classify s l with
   | None => (s, Raised)      (* unreachable under the invariant; state effects not modelled *)
   | Some (s1, ms) =>
-      match download s1 ms with
+      match download_all s1 ms with
       | (s2, _, DlCrashed) => (set_alive s2 false, Crashed)
       | (s2, _, DlRaised) => (evict (register_existing s2 ms), Raised)
       | (s2, bs, DlOk) =>
